@@ -5,6 +5,11 @@ import json, subprocess
 HOOK_COMMITS = ["e830588", "a6f2056", "d667224"]
 
 CHECKS = {
+ "C07": dict(
+  technique="runtime differential monitor: isolated vs interleaved analysis of scripted connections on the real analyzers, virtual clock, canonical per-frame result comparison",
+  text="Exploration: 24k (quick) / 800k (thorough) seeded scenarios of 2..8 connections (TCP handshakes with timestamps, multi-segment ClientHellos, HTTP/1.x, HTTP/2 incl. hostile HPACK blocks, garbage, truncated) are each analysed alone and under 3..5 order-preserving interleavings on the TCP, HTTP, TLS and unified analyzers; the per-frame canonical results of every connection must be identical in both runs. Held = no connection's result sequence changed in any explored interleaving.",
+  note="Needs hooks H1 (clock) and H3 (per-packet entry). Reach is the sampled interleavings of the generated connection kinds; capacity is kept above the number of connections.",
+  design="6 C07"),
  "C19": dict(
   technique="runtime oracle: online reference state machine (exact rational arithmetic) over episodes driven with a virtual clock hook",
   text="Exploration: ~1.7e6 (quick) / ~2.7e7 (thorough) judged per-segment reports from episodes of timestamped segments whose arrival times are injected through the clock hook: every integer rate 0..1600 Hz x 13 intervals at the 25 ms / 100 ms / 600 s boundaries x 8 base timestamps (incl. wrap), minimum-tick and grid-boundary cases, backward movement, and seeded interleaved client/server sequences. Each report or absence of one is compared with the documented estimator restated as a state machine. Held = no segment's report differed.",
